@@ -27,7 +27,7 @@ ASSUMPTIONS = [
     "wrapper rules: the first command of a non-empty prefix enters configuration mode; 'commit*' only with do_commit; save/write/copy only with do_finalize",
     "R7 (vf/ref/deploy.py) for rule chains; sibling deploy rules have disjoint languages; no %ifcontext in generated rulebooks",
 ]
-FLOORS = {"quick": {"streams_compared": 3000, "commands_compared": 20000, "exits_seen": 3000, "rule_params_checked": 5000, "nondefault_params": 500, "production_jobs": 200, "cases_with_two_apply_logics": 100, "xpl_patches": 500, "xpl_endif_lines_shown": 500, "production_real_jobs": 12, "regexp_dialogs_checked": 200, "context_rulebooks": 400, "ifcontext_rules_matched": 300},
+FLOORS = {"quick": {"streams_compared": 3000, "commands_compared": 20000, "exits_seen": 3000, "rule_params_checked": 5000, "nondefault_params": 500, "production_jobs": 200, "cases_with_two_apply_logics": 100, "xpl_patches": 500, "xpl_endif_lines_shown": 500, "production_real_jobs": 12, "regexp_dialogs_checked": 200, "context_rulebooks": 400, "ifcontext_rules_matched": 300, "command_contexts_checked": 8000, "exit_contexts_checked": 2000},
           "thorough": {"streams_compared": 90000, "commands_compared": 600000, "exits_seen": 90000, "rule_params_checked": 150000, "nondefault_params": 15000, "production_jobs": 6000, "xpl_patches": 12000, "xpl_endif_lines_shown": 12000, "production_real_jobs": 12}}
 MODELS = {
     "huawei": ["Huawei", "Huawei CE6870", "Huawei NE40E-X8", "Huawei Quidway S5300"],
@@ -166,7 +166,8 @@ def check_stream(pt, model, vname, flags, acc, w, deploy_rules=None, deploy_comp
         ind = len(ln) - len(ln.lstrip(" "))
         shown.append((ind // len(fmt._indent), ln.strip()))
     flat = [(len(p) - 1, p[-1]) for p in paths]
-    w = dict(w, model=model, flags=list(flags), shown=[list(x) for x in shown][:80])
+    ctx_of = w.get("_ctx_of")
+    w = dict({k_: v_ for k_, v_ in w.items() if not k_.startswith("_")}, model=model, flags=list(flags), shown=[list(x) for x in shown][:80])
     acc.count("streams_compared")
     acc.count("commands_compared", len(flat))
     acc.count("exits_seen", sum(1 for d, c in flat if c in exits))
@@ -232,7 +233,25 @@ def check_stream(pt, model, vname, flags, acc, w, deploy_rules=None, deploy_comp
     # per command parameters
     if deploy_rules is not None:
         for p, c in zip(paths, cmds_body):
-            exp = RDP.find(deploy_rules, p, dict(paths[p] or {}))
+            real_ctx = dict(paths[p] or {})
+            if ctx_of is not None:
+                if p[-1] in exits and len(p) >= 2:
+                    # the exit of a block: its context must be one carried by a command of the block it closes (header included)
+                    own = [dict(paths[q] or {}) for q in paths if q[:len(p) - 1] == p[:-1] and q is not p]
+                    acc.count("exit_contexts_checked")
+                    if real_ctx not in own:
+                        acc.violation("C09/exit-context-from-another-block", "the exit command of a block carries a %context that no command of that block carries",
+                                      dict(w, path=list(p), got=real_ctx, block_contexts=own[:10]))
+                        return False
+                else:
+                    want = ctx_of(p)
+                    if want is not None:
+                        acc.count("command_contexts_checked")
+                        if real_ctx not in want:
+                            acc.violation("C09/command-context-differs", "a command does not carry the %context of the rulebook section its rule is written in",
+                                          dict(w, path=list(p), expected=want, got=real_ctx))
+                            return False
+            exp = RDP.find(deploy_rules, p, real_ctx)
             if exp and exp[1].get("ifcontext"):
                 acc.count("ifcontext_rules_matched")
             et = exp[1]["timeout"] if exp else 30
@@ -268,11 +287,48 @@ def check_case(seed, acc, ctx=False):
             # %context sections of the patching rulebook: every command carries the context of the rule that produced it, and
             # deploy rules may be restricted to several contexts at once (%ifcontext=block:a,block:b)
             lines, crng = [], random.Random(seed ^ 0xC7)
+            cur, top_i, ctx_by_rule = {}, 0, {}
+            pool_ctx = ["cA", "cB", "cC", "cD"]
             for ln in text.split("\n"):
-                if ln and not ln.startswith(" ") and crng.random() < 0.6:
-                    lines.append("%%context=block:%s" % crng.choice(["cA", "cB", "cC", "cD"]))
+                if ln and not ln.startswith(" "):
+                    if crng.random() < 0.6 and pool_ctx:
+                        # each directive value once per rulebook, as in the shipped rulebooks: the rulebook reader keys rows by their text,
+                        # so a repeated identical directive line is taken at the place of its first occurrence (outside C09, see DESIGN §8)
+                        cur = {"block": pool_ctx.pop(crng.randrange(len(pool_ctx)))}
+                        lines.append("%%context=block:%s" % cur["block"])
+                    ctx_by_rule[id(rules[top_i])] = dict(cur)  # the section a top-level rule (and everything below it) is written in
+                    top_i += 1
                 lines.append(ln)
             text = "\n".join(lines)
+            all_rules = []
+
+            def spread(r, c):
+                ctx_by_rule[id(r)] = c
+                all_rules.append(r)
+                for ch in r.children:
+                    spread(ch, c)
+            for r in rules:
+                spread(r, ctx_by_rule[id(r)])
+            l0, g0 = RB.split_level(rules)
+
+            def ctx_of(path):
+                """contexts the rule governing the last row of `path` may be written in: a set (the last row may be the removal of a
+                row or a row that itself starts with the negation word), or None when the reference cannot tell"""
+                l, g = l0, g0
+                for row in path[:-1]:
+                    s_ = RB.select(row, l, g)
+                    if s_ is None:
+                        return None
+                    l, g = s_[2], s_[3]
+                last, cands = path[-1], []
+                for row in ([last[len(prefix) + 1:]] if last.startswith(prefix + " ") else []) + [last]:
+                    s_ = RB.select(row, l, g)
+                    if s_ is not None:
+                        cands.append(ctx_by_rule[id(s_[0])])
+                        if s_[0].glob:  # the same %global rule text written in several sections: which copy is in force below is not C09's business
+                            cands.extend(ctx_by_rule[id(r)] for r in all_rules if r.glob and r.raw() == s_[0].raw())
+                return cands or None
+            w["_ctx_of"] = ctx_of
             acc.count("context_rulebooks")
         old = G.gen_tree(rng, rules)
         new = G.mutate_tree(rng, old, rules, rate=0.6) if rng.random() < 0.7 else G.gen_tree(rng, rules)
